@@ -87,13 +87,45 @@ def run(c, index, tier):
         _env(c, g)
         want0 = _observe(c, spec, f0, cfg, Xp)
 
-    # ---- history on one instance: fit(A) [predict] fit(B)
-    x = spec.build(cfg)
+    # ---- history on one instance: fit(A) [predict] fit(B); in one run out of
+    # four the instance starts with another configuration and is reconfigured
+    # with set_params between the two fits (what a grid search does to a clone)
+    reconfigured = ch.boolean("w", 0.25, "reconfigured-between-fits")
+    if reconfigured:
+        cfg1 = spec.draw(ch)
+        if "n_jobs" in cfg1:
+            cfg1["n_jobs"] = None
+        x = spec.build(cfg1)
+        argsA, kwA = spec.fit_args(A, cfg1)
+        c.scenario["first_config"] = {k: repr(v) for k, v in cfg1.items()}
+    else:
+        x = spec.build(cfg)
     _env(c, g)
     ok, r = U.sut(c, "fit(A)", x.fit, *argsA, **kwA)
     if not ok:
         c.probe("fit_raised_on_generated_data:" + spec.name)
         return
+    if want0 is not None:
+        # the pristine instance, fitted on B and left alone, is asked again now
+        # that another instance has been fitted on A
+        _env(c, g)
+        again = _observe(c, spec, f0, cfg, Xp)
+        bad = R.same_outputs(spec, want0, again, exact=True)
+        if bad:
+            _viol(
+                c,
+                seen,
+                spec,
+                "fitted-instance-changed-by-another-instance",
+                (bad[0],),
+                "an estimator fitted on B gives other outputs after a second, independent instance was fitted on A (differing: %r): fitted state is shared between instances" % (bad,),
+            )
+    if reconfigured:
+        ok, r = U.sut(c, "set_params(second configuration)", x.set_params, **spec.build(cfg).get_params(deep=False))
+        if not ok:
+            c.probe("set_params_raised:" + spec.name)
+            return
+        c.probe("reconfigured_between_fits")
     if predict_between:
         _env(c, g)
         R.observe(c, spec, x, cfg, A.Xp)
